@@ -168,9 +168,23 @@ def oracle(ctx, o, first_only=False):
         hh = vc.using(h, vc.cheap_settings(h, rng))
         base = b"abcdefghij"
         good = hh.hash(base[:5])
-        for i in range(len(base) + 1):
-            pw = base[:i] + b"\x00" + base[i:]
-            inp = {"op": "nul", "hasher": name, "position": i}
+        # … and in a password that is not UTF-8 (the OS crypt() cannot take it: the pure-Python code path), long enough to put the NUL
+        # beyond the format's truncation limit as well
+        lim = getattr(h, "truncate_size", None) or 8
+        base2 = b"\xffbcdefgh" + bytes(0x61 + (k % 26) for k in range(lim + 4))
+        cases = [(base, i) for i in range(len(base) + 1)] + [(base2, i) for i in sorted({0, 1, 7, 8, 9, lim - 1, lim, lim + 1, len(base2)})]
+        for b0, i in cases:
+            pw = b0[:i] + b"\x00" + b0[i:]
+            inp = {"op": "nul", "hasher": name, "position": i, "base": b0.hex()}
+            if b0 is base2:
+                st, r = vc.safe_call(lambda: hh.hash(pw))
+                if name in vc.NUL_AS_DATA:
+                    continue
+                chk(name + ":nul-hash-refused-non-utf8", st == "err" and isinstance(r, ValueError), inp, errname(r) if st == "err" else r, "a value error wherever the NUL is")
+                g2 = hh.hash(b0)
+                st, r = vc.safe_call(lambda: hh.verify(pw, g2))
+                chk(name + ":nul-verify-refused-non-utf8", st == "err" and isinstance(r, ValueError), inp, errname(r) if st == "err" else str(r)[:60], "a value error wherever the NUL is")
+                continue
             st, r = vc.safe_call(lambda: hh.hash(pw))
             if name == "crypt16" and i == len(base):
                 continue        # a trailing NUL is the zero padding of the DES key (part of the recorded finding)
